@@ -42,6 +42,17 @@ with ThreadPoolExecutor(max_workers=int(os.environ.get("VX_JOBS", "4"))) as ex:
     rows = list(ex.map(one, todo))
 with open(os.path.join(ROOT, "seeded", "MATRIX.md"), "w") as f:
     f.write("# Seeded changes vs. checks\n\nEach change was produced by a sub-agent that saw only the property text, confirmed in a scratch worktree (compiles, the repository's 40 tests pass, its demonstration fails with the change and passes without), and then run through `./vx check <property>`.\n\n| seed | property | result | reported by | first violated obligation |\n|---|---|---|---|---|\n")
-    for s, prop, res, layers, first in rows:
+    done = {r[0]: r for r in rows}
+    for s in seeds:
+        if s in done:
+            _, prop, res, layers, first = done[s]
+        else:
+            # rows of seeds not re-run now come from their recorded result
+            mp = os.path.join(ROOT, "seeded", s, "meta.json")
+            cr = (json.load(open(mp)) if os.path.exists(mp) else {}).get("check_result")
+            if not cr:
+                continue
+            prop, layers, first = s.split("-")[0], cr.get("detected_by", []), cr.get("first_violation", "")[:220]
+            res = {0: "MISSED", 1: "detected", 2: "undecided"}.get(cr.get("exit"), "exit %s" % cr.get("exit"))
         f.write("| %s | %s | %s | %s | %s |\n" % (s, prop, res, "+".join(layers), first.replace("|", "\\|")))
 print("missed:", [r[0] for r in rows if r[2] != "detected"])
